@@ -8,8 +8,8 @@ USES_FACTS = False
 DRIVER = "shootmodel_map"
 
 MANIFEST = dict(
-    text="Lean 4 theorems over a model of the mapper's decision logic (field flattening, tag map, name matching, matchType/mayMisConv, mismatch-before-match pair loops against the two write-sets, statement lists): write-once as an invariant of the write-sets by induction over both pair loops (all inputs), closed form of the claim logs under unique name matching (C05_pairs), strategy = the property's priority list (C05_strategy), unmatched/incompatible never written, -way, tag/-i rules, round trip for identical-type pairs; 7 finding regions with witness theorems. Model tied to internal/mapper by generating src/dest package pairs, running the rebuilt `shoot map`, compiling and executing ToX/FromX on sentinel-filled values and decoding, per written leaf, the leaf it came from (plus per-leaf write counts and FromX(ToX(v))).",
-    note="Lean kernel + standard axioms; the correspondence (tools/vlib/mapgen.py + vo.ObserveMap + Lean driver shootmodel_map) ties the model to the code; go/types ConvertibleTo on the palette is re-implemented in the harness; acronym-casing theorems (smartMatch vs word segmentation) are not proved, the relation is checked by correspondence only.",
+    text="Lean 4 theorems over a model of the mapper's decision logic (field flattening, tag map, name matching, matchType/mayMisConv, mismatch-before-match pair loops against the two write-sets, statement lists): write-once as an invariant of the write-sets by induction over both pair loops (all inputs), closed form of the claim logs under unique name matching (C05_pairs), strategy = the property's priority list (C05_strategy), unmatched/incompatible never written, -way, tag/-i rules, round trip for identical-type pairs, and the name relation characterised from both sides (C05_match_sound: smartMatch -> equal length and equal up to case; C05_match_iff: smartMatch <-> identical or same words; C05_match_acronym: syntactic acronym variants match; closed form of ToCamelCase on List Char); 7 finding regions with witness theorems. Model tied to internal/mapper by generating src/dest package pairs, running the rebuilt `shoot map`, compiling and executing ToX/FromX on sentinel-filled values and decoding, per written leaf, the leaf it came from (plus per-leaf write counts and FromX(ToX(v))).",
+    note="Lean kernel + standard axioms; the correspondence (tools/vlib/mapgen.py + vo.ObserveMap + Lean driver shootmodel_map) ties the model to the code; go/types Identical/ConvertibleTo come from the real go/types (harness/cmd/mapconv); the name theorems assume ASCII identifiers without underscores (names with underscores are region Out / F_tagKey).",
     technique="Lean 4 proof (write-set invariant, two-phase fold closed form) + differential execution of generated mappers",
     design="5/C05")
 
@@ -147,9 +147,9 @@ def run(ctx, obl):
                 "variants / case-only variants / `map:\"Name\"` / `map:\"-\"`, value and pointer embeds to depth 2 with shadowing, -i/-way/-alias/-to; "
                 "each rendered to a src and a dest package, `shoot map` run, ToX/FromX executed on sentinel-filled values, every written leaf decoded to the "
                 "leaf it came from. non-trivial = at least one leaf receives a value and at least one stays zero")
-    res.assumptions = ["go/types ConvertibleTo on the palette is re-implemented in the harness (tools/vlib/mapgen.py convertible)",
+    res.assumptions = ["go/types Identical/ConvertibleTo are taken from the real go/types (harness/cmd/mapconv) for the types of each case",
                        "assignment and conversion are told apart by the types only, not by the observed value",
-                       "bool fields and manual toX/fromX methods are not generated"]
+                       "bool leaves are only told apart from zero; manual hook bodies are self-assignments (the analysis sees an assignment, the value does not change)"]
     return res
 
 
